@@ -381,13 +381,13 @@ def check_c19(tier, seed, t0):
     per_config = []
     for feats, profile in configs:
         t1 = time.time()
-        legs = [props.hx_leg("SA", profile=profile, features=feats, L=3, D=7, props=["C01", "C02", "C04", "C06", "C07", "C08", "C09", "C12", "C14"] + (["C03"] if profile == "rel" else [])),
+        legs = [props.hx_leg("SA", profile=profile, features=feats, L=3, D=7, props=["C01", "C02", "C04", "C06", "C07", "C08", "C09", "C12", "C14"] + (["C03"] if profile == "rel" else []) + (["C17"] if "events" in feats else [])),
                 props.hx_leg("SE", profile=profile, features=feats, props=["C08", "C10", "C01", "C04", "C12"] + (["C17"] if "events" in feats else [])),
                 props.hx_leg("SF", profile=profile, features=feats, props=["C10", "C01", "C04", "C12"] + (["C17"] if "events" in feats else []))]
         if "events" in feats:
             legs.append(props.hx_leg("SG", profile=profile, features=feats, props=["C17", "C01"]))
         if "32_components" in feats:
-            legs.append(props.hx_leg("SC32", profile=profile, features=feats, props=["C02", "C04", "C12", "C01"]))
+            legs.append(props.hx_leg("SC32", profile=profile, features=feats, props=["C02", "C04", "C12", "C01", "C06", "C07", "C09"]))
         if tier == "thorough" and profile == "rel" and feats == ("wrapping_version",):
             # the real 2^32 wraparound, without hooks
             legs.append(props.hx_leg("CYCLE", profile=profile, features=feats))
